@@ -376,6 +376,7 @@ static void gen_piece(rng_t *r, int depth, int inside_args)
     else if (c < 72) {
         if (rng_chance(r, 1, 5)) { static const char *qv[] = { "''", "\"\"", "'two words'", "\"d q\"", "'$V1'", "'~'", "' '" }; ga("%%put(k%u %s)", rng_below(r, 4), qv[rng_below(r, 7)]); }     /* quoted values, the empty one included */
         else if (rng_chance(r, 1, 10)) { static const char *odd[] = { "%%put()", "%%put(k1)", "%%put(k1 $EMPTY)", "%%put($NOSUCH v)" }; ga(odd[rng_below(r, 4)]); }      /* too few words once expanded */
+        else if (rng_chance(r, 1, 12)) { static const char *del[] = { "%%put('a\" b' one)", "%%put('m\" b' one)", "%%put(\"a\\\" b)", "%%put(\"m\\\" b)", "%%get('a\" b' none)", "%%get('m\" b' none)" }; ga(del[rng_below(r, 6)]); }      /* names with a quote in them, and the spelling that deletes one (two words to the counter, one to the splitter): value not modelled, safety and garbage-independence are */
         else if (rng_chance(r, 1, 8)) {
             /* a quoted word first, a plain one after it, and something behind that (white space in front of the parenthesis) */
             static const char *tail[] = { " ", "\t", "  ", "" };
